@@ -1085,6 +1085,9 @@ func (fx *FuncCtx) execLoop(pre *State, ld *loopDesc) Flow {
 	if spec != nil {
 		for i, inv := range spec.Invariants {
 			inv := inv
+			if inv.Tag != "" && !fx.tagActive(inv.Tag) {
+				continue
+			}
 			cands = append(cands, cand{name: fmt.Sprintf("user%d: %s", i+1, inv.Src), user: true, eval: func(s *State, it Term) Term {
 				return fx.specBool(&specEnv{fx: fx, cur: s, old: fx.entry, loop: lf, it: &it, pos: ld.node.Pos()}, inv.Expr)
 			}})
